@@ -722,6 +722,9 @@ class Interp:
                 return bv_cast(a.addr, w, False)
             return BV.sym(w, 'addr(%s)' % a.key())
         if isinstance(a, Ref):
+            ov = getattr(self, 'addr_override', {}).get((a.loc, a.path))
+            if ov is not None:
+                return bv_cast(ov, w, False)
             return BV.sym(w, 'addr(%s%s)' % (fmt_loc(a.loc), fmt_path(a.path)))
         if isinstance(a, FnItem):
             return BV.sym(w, 'addr(fn %s)' % a.c['name'])
